@@ -395,9 +395,13 @@ SingleConsumer == Cardinality(H.inCons) <= 1
 \* structural form: consume_until_empty is never active (or launched) twice
 ConsumerActive == {t \in Thr : pc[t] \in ConsPcs}
 OneConsumerSection == Cardinality(ConsumerActive) <= 1
-\* pending (signalled) items always have a running or launched consumer, unless the last launch was refused
+\* pending items always have a running or launched consumer -- or a producer that still has to signal
+\* (tickets are delivered in order: what is queued behind an unpublished ticket waits for that ticket's
+\* producer, whose signal launches the consumer) -- unless the last launch was refused
 NoStranding ==
-  (LastVal(ms, EvLoc) = 0 /\ ConsumerActive = {} /\ ~H.unrec) => H.sig \subseteq H.consEnd
+  (LastVal(ms, EvLoc) = 0 /\ ConsumerActive = {} /\ ~H.unrec) =>
+     /\ \A j \in 1..Q.head : Q.tk[j] \in H.consEnd
+     /\ Q.head < Len(Q.tk) => Q.tk[Q.head + 1] \notin H.sig
 \* join() returns only after everything submitted before it was consumed
 JoinReturnsAfterConsumed == \A t \in 0..P : (pc[t] = "ret" /\ L[t].op = "j") => L[t].jset \subseteq H.consEnd
 \* the part of it that does not rest on real-time order between threads (meaningful with Stale = TRUE)
